@@ -14,7 +14,7 @@ demo=$(ls "$src" | grep -E "^demo" | head -1)
 run_demo() {
   case "$demo" in
     *.rs) cp "$src/$demo" tests/"$demo"; cargo test --offline --features levenshtein --test "${demo%.rs}" >/tmp/confirm_demo.log 2>&1; r=$?; rm -f tests/"$demo";;
-    *.sh) mkdir -p "$cr/_out"; sed "s|/tmp/mut4/$id|$cr|g; s|/tmp/mut3/$id|$cr|g; s|/tmp/mut2/$id|$cr|g; s|/tmp/mut/$id|$cr|g" "$src/$demo" > "$cr/_out/$demo"; sh "$cr/_out/$demo" >/tmp/confirm_demo.log 2>&1; r=$?; rm -rf "$cr/_out";;
+    *.sh) mkdir -p "$cr/_out"; sed "s|/tmp/mut5/$id|$cr|g; s|/tmp/mut4/$id|$cr|g; s|/tmp/mut3/$id|$cr|g; s|/tmp/mut2/$id|$cr|g; s|/tmp/mut/$id|$cr|g" "$src/$demo" > "$cr/_out/$demo"; sh "$cr/_out/$demo" >/tmp/confirm_demo.log 2>&1; r=$?; rm -rf "$cr/_out";;
     *) r=99;;
   esac
   return $r
